@@ -223,4 +223,22 @@ def noEmptyList : List SConn → Bool
 end
 
 
+/-! ### unit-step expressions (what the property demands be accepted: integer indices and unit-step ranges) -/
+
+def Index.unit : Index → Bool
+  | .int _ => true
+  | .range _ _ st => st == none || st == some 1
+
+mutual
+/-- every index in the expression is an integer or a unit-step range -/
+def SConn.unit : SConn → Bool
+  | .sig _ _ => true
+  | .slice p idx => p.unit && idx.unit
+  | .concat ps => unitList ps
+def unitList : List SConn → Bool
+  | [] => true
+  | p :: ps => p.unit && unitList ps
+end
+
+
 end Hdl21
